@@ -240,6 +240,7 @@ def run(ctx):
         agg = storelib.random_runs(ctx, pool, cov, [dict(seed=sd, n=(300 if ctx.quick() else 700), caps=([] if i % 2 == 0 else [4, 4]), cache=0, pcrash=0.04, pflush=0.1,
                                                          wal=False, maxrows=8, longbad=320) for i, sd in enumerate(seeds)])
         cov["long_run_statements"] = agg["statements"]
+        cov["long_run_mixed_refused_updates"] = agg.get("mixed_refused_updates", 0)
         if not ctx.quick():
             storelib.design_only(ctx, "big", dict(BadMode='"all"', MaxStmts=5, MaxRows=3, MaxFlush=1, Tables='{"t1"}', Vals="{1, 9}", Wheres="{0, 1, 101}"), cov, timeout=300)
     finally:
